@@ -40,6 +40,10 @@ type vLeaf struct {
 	intHi    int64
 	ll       bool // leaf-list of strings: the value is "e0".."e<n-1>", n in 0..llMax
 	llMax    int
+	// scenario restrictions (smaller universes): only this owner may define the leaf;
+	// the leaf is present exactly when leaf tiedTo (listed before it) is
+	onlyOwner string
+	tiedTo    string
 }
 
 func (l *vLeaf) path() *sdcpb.Path {
@@ -367,7 +371,16 @@ func vArbitraryState(sc *vScenario) *vState {
 			continue
 		}
 		for _, o := range sc.owners {
-			if verifrt.Bool("pres." + l.tag + "." + o) {
+			if l.onlyOwner != "" && l.onlyOwner != o {
+				continue
+			}
+			p := false
+			if l.tiedTo != "" {
+				p = st.pres[l.tiedTo][o]
+			} else {
+				p = verifrt.Bool("pres." + l.tag + "." + o)
+			}
+			if p {
 				st.pres[l.id][o] = true
 				st.val[l.id][o] = l.newVal("val." + l.tag + "." + o)
 			}
@@ -492,7 +505,16 @@ func vArbitraryRequest(st *vState, tag string, ownerIdx int) *vRequest {
 		if l.keyOf != "" {
 			continue
 		}
-		if verifrt.Bool(tag + "npres." + l.tag) {
+		if l.onlyOwner != "" && l.onlyOwner != r.owner {
+			continue
+		}
+		p := false
+		if l.tiedTo != "" {
+			p = r.pres[l.tiedTo]
+		} else {
+			p = verifrt.Bool(tag + "npres." + l.tag)
+		}
+		if p {
 			r.pres[l.id] = true
 			r.val[l.id] = l.newVal(tag + "nval." + l.tag)
 			any = true
